@@ -105,7 +105,7 @@ fn usv_from_3() {
     from_n::<3>()
 }
 
-//@H props=C20,C17,C04 tier=thorough kind=bounded cap=2400 bound="vector length 4" domain="all u8 values"
+//@H props=C20,C17,C04 tier=deep kind=bounded cap=2400 bound="vector length 4" domain="all u8 values"
 #[cfg_attr(kani, kani::proof)]
 #[cfg_attr(kani, kani::unwind(8))]
 #[cfg_attr(verif_replay, test)]
@@ -184,7 +184,7 @@ fn usv_union_2_2() {
     union_nm::<2, 2>()
 }
 
-//@H props=C20,C17,C04 tier=thorough kind=bounded cap=3000 bound="operand lengths (3,2)" domain="all u8 values"
+//@H props=C20,C17,C04 tier=deep kind=bounded cap=3000 bound="operand lengths (3,2)" domain="all u8 values"
 #[cfg_attr(kani, kani::proof)]
 #[cfg_attr(kani, kani::unwind(9))]
 #[cfg_attr(verif_replay, test)]
@@ -192,7 +192,7 @@ fn usv_union_3_2() {
     union_nm::<3, 2>()
 }
 
-//@H props=C20,C17,C04 tier=thorough kind=bounded cap=3000 bound="operand lengths (2,3)" domain="all u8 values"
+//@H props=C20,C17,C04 tier=deep kind=bounded cap=3000 bound="operand lengths (2,3)" domain="all u8 values"
 #[cfg_attr(kani, kani::proof)]
 #[cfg_attr(kani, kani::unwind(9))]
 #[cfg_attr(verif_replay, test)]
@@ -200,7 +200,7 @@ fn usv_union_2_3() {
     union_nm::<2, 3>()
 }
 
-//@H props=C20,C17,C04 tier=thorough kind=bounded cap=3600 mem=medium bound="operand lengths (3,3)" domain="all u8 values"
+//@H props=C20,C17,C04 tier=deep kind=bounded cap=3600 mem=medium bound="operand lengths (3,3)" domain="all u8 values"
 #[cfg_attr(kani, kani::proof)]
 #[cfg_attr(kani, kani::unwind(9))]
 #[cfg_attr(verif_replay, test)]
